@@ -90,17 +90,34 @@ def check_fix_whitespace(report):
     fi = m.func("gapic.generator.formatter.fix_whitespace")
     fn, p = fi.node, fi.module.path
     CODE = fn.args.args[0].arg
-    subs = [c for c in calls(fn) if ast.unparse(c.func) == "re.sub"]
-    r.need(len(subs) >= 3, "re.sub calls in fix_whitespace")
-    for c in subs:
+    # a substitution step is re.sub(<literal>, <literal>, code) or <P>.sub(<literal>, code) with P = re.compile(<literal>) at module level
+    compiled = {}
+    for st in fi.module.tree.body:
+        if isinstance(st, ast.Assign) and len(st.targets) == 1 and isinstance(st.targets[0], ast.Name) and isinstance(st.value, ast.Call) \
+                and ast.unparse(st.value.func) == "re.compile" and len(st.value.args) == 1 and isinstance(st.value.args[0], ast.Constant) \
+                and not st.value.keywords:
+            compiled[st.targets[0].id] = st.value.args[0].value
+    subs = []
+    for c in calls(fn):
+        f = ast.unparse(c.func)
+        if f == "re.sub":
+            subs.append((c, c.args[0].value if c.args and isinstance(c.args[0], ast.Constant) else None, c.args[1] if len(c.args) > 1 else None,
+                         c.args[2] if len(c.args) > 2 else None, len(c.args) == 3))
+        elif isinstance(c.func, ast.Attribute) and c.func.attr == "sub":
+            base = ast.unparse(c.func.value)
+            r.need(base in compiled, f"{base}.sub(...)", "substitution through a pattern object that is not a module-level re.compile(<literal>)")
+            subs.append((c, compiled[base], c.args[0] if c.args else None, c.args[1] if len(c.args) > 1 else None, len(c.args) == 2))
+    r.need(len(subs) >= 3, "substitution steps in fix_whitespace")
+    for c, pat, rep_node, subj, arity_ok in subs:
         r.instance(ast.unparse(c)[:100])
-        ok = len(c.args) == 3 and isinstance(c.args[0], ast.Constant) and isinstance(c.args[1], ast.Constant) and ast.unparse(c.args[2]) == CODE
-        r.check(ok, p, c.lineno, ast.unparse(c)[:100], "each step must be re.sub(<literal>, <literal>, code)")
+        ok = arity_ok and isinstance(pat, str) and isinstance(rep_node, ast.Constant) and isinstance(rep_node.value, str) and subj is not None \
+            and ast.unparse(subj) == CODE and not c.keywords
+        r.check(ok, p, c.lineno, ast.unparse(c)[:100], "each step must be a substitution of a literal pattern by a literal replacement applied to `code` (no count / flags)")
         if not ok:
             continue
         st = [n for n in fn.body if isinstance(n, ast.Assign) and n.value is c]
         r.check(len(st) == 1 and ast.unparse(st[0].targets[0]) == CODE, p, c.lineno, "result assigned back to code", "steps must be chained on the same variable")
-        pat, rep = c.args[0].value, c.args[1].value
+        rep = rep_node.value
         tree = sre_parser.parse(pat)
         content_groups = []      # group numbers whose text must be preserved
         prev_newline = False
@@ -123,6 +140,12 @@ def check_fix_whitespace(report):
             elif not only_space([(op, av)]):
                 okp = False
         r.check(okp, p, c.lineno, f"pattern {pat!r}", "outside its capture groups a pattern may only match whitespace; otherwise code is deleted")
+        nl = [i for i, (op, av) in enumerate(items) if str(op) == "LITERAL" and av == ord("\n")]
+        if nl:
+            tail = items[nl[-1] + 1:]
+            r.check(all(str(op) == "SUBPATTERN" for op, _ in tail), p, c.lineno, f"pattern {pat!r}: items after the last line break",
+                    "whitespace matched after the last line break of the pattern is the indentation of the following line; it may only be matched "
+                    "inside a capture group that the replacement restores (a repeated group restores only its last repetition)")
         # replacement
         rt = sre_parser.parse_template(rep, __import__("re").compile(pat))
         groups_in_rep, lits = [], []
